@@ -342,6 +342,14 @@ func updateReferences(st storage.Storer, req *packp.UpdateRequests, cmdStatus ma
 			}
 		}
 
+		// Never point a reference to an object the repository lacks.
+		if cmd.Action() != packp.Delete {
+			if err := st.HasEncodedObject(cmd.New); err != nil {
+				setStatus(cmdStatus, firstErr, cmd.Name, fmt.Errorf("%w: missing necessary objects", ErrUpdateReference))
+				continue
+			}
+		}
+
 		switch cmd.Action() {
 		case packp.Create:
 			if exists {
